@@ -314,5 +314,5 @@ class SourceFile:
 
 def _squash(s):
     s = re.sub(r"\s+", " ", s.strip())
-    s = re.sub(r"\s*(::|<|>|,|&|\(|\))\s*", r"\1", s)
+    s = re.sub(r"\s*(::|<|>|,|&|\(|\)|\[|\])\s*", r"\1", s)
     return s
